@@ -1631,6 +1631,50 @@ let run_pc_pst13 c =
               | _ -> obs1 (k "check") "S" "refused");
              brecs.(t) <- Some (tr3, pfl, vperm)
            | _ -> ())
+        | [ "lc"; sq; ls ] ->
+          let chal = tape_of (k "chal") and vchal = tape_of (k "vchal") in
+          let ident = List.init n (fun i -> i) in
+          let pperm = if has c (k "pperm") then List.map int_of_string (get c (k "pperm")) else ident in
+          let vperm = if has c (k "vperm") then List.map int_of_string (get c (k "vperm")) else ident in
+          let lcs = List.map (fun (_, v) ->
+              let lb = nlabel (int_of_string (List.nth v 0)) in
+              let rec go = function
+                | co :: tm :: r -> (f_of_str co, (if tm = "one" then LC.TOne else LC.TPoly (lab (int_of_string tm)))) :: go r
+                | _ -> [] in
+              (lb, go (List.tl (List.tl v)))) (indexed c ("lcs." ^ sq)) in
+          let lcarr = Array.of_list lcs in
+          let tr3 = triples3 (get c ("lqs." ^ ls)) in
+          let idx_of_label l = let rec f i = if i >= n then 0 else if Z.equal (lab i) l then i else f (i + 1) in f 0 in
+          let lc_value (_, terms) z = List.fold_left (fun acc (co, tm) ->
+              fo.Field.fadd acc (match tm with
+                  | LC.TOne -> co
+                  | LC.TPoly l -> fo.Field.fmul co (PST13.eval_mpoly fo z polys.(idx_of_label l)))) (tof Z.zero) terms in
+          let qs = List.sort_uniq (fun (l1, (p1, z1)) (l2, (p2, z2)) ->
+              let r = Z.compare l1 l2 in if r <> 0 then r else let r = Z.compare p1 p2 in if r <> 0 then r else cmpl z1 z2)
+              (List.map (fun (kk, zl, pj) -> (fst lcarr.(kk), (nlabel zl, pts.(pj)))) tr3) in
+          let tbl = Hashtbl.create 16 in
+          List.iter (fun (kk, _, pj) -> Hashtbl.replace tbl (Z.to_string (fst lcarr.(kk)) ^ "@" ^ String.concat "," (fs_to pts.(pj)))
+                        ((fst lcarr.(kk), pts.(pj)), lc_value lcarr.(kk) pts.(pj))) tr3;
+          let evm = List.sort (fun ((l1, z1), _) ((l2, z2), _) -> let r = Z.compare l1 l2 in if r <> 0 then r else cmpl z1 z2)
+              (Hashtbl.fold (fun _ v acc -> v :: acc) tbl []) in
+          obs (k "evals") "F" (fs_to (List.map snd evm));
+          let items = List.map (fun i -> (lab i, ((polys.(i), snd cs.(i)), fst cs.(i)))) pperm in
+          let r = PST13Batch.pst_open_combinations fo nvn sn betas lcs items qs chal in
+          obs1 (k "open") "S" (class_of r);
+          (match r with
+           | Result.Ok (pfl, _) ->
+             obs1 (k "nproofs") "N" (string_of_int (List.length pfl));
+             obs1 (k "lc_evals") "F" "none";
+             List.iteri (fun g pf ->
+                 obs (Printf.sprintf "pf.%d.%d.w" t g) "L:pbasis" (dash (List.map gv_tok pf.PST13H.pp_w));
+                 obs1 (Printf.sprintf "pf.%d.%d.rv" t g) "F" (match pf.PST13H.pp_rv with Some r -> f_to_str r | None -> "none")) pfl;
+             let cml = List.map (fun i -> (lab i, fst cs.(i))) vperm in
+             (match PST13Batch.pst_check_combinations fo nvn betas lcs cml qs evm pfl vchal (tape_of (k "vtape")) with
+              | Result.Ok ((b, _), draws) ->
+                obs1 (k "check") "S" (if b then "accept" else "reject");
+                obs1 (k "check_draws") "N" (string_of_int (int_of_nat draws))
+              | _ -> obs1 (k "check") "S" "refused")
+           | _ -> ())
         | _ -> ()
       done;
       List.iter (fun (m, mv) ->
